@@ -592,7 +592,14 @@ def delitem(I, obj, key):
 # ---------------------------------------------------------------------------------------------
 
 def m_len(I, x):
+    from .absx import AbsColl
+    if isinstance(x, AbsColl):
+        if "length" in x.info:
+            return x.info["length"]
+        raise OutOfReach("len() of an abstract collection without a length ghost")
     if isinstance(x, MDict):
+        if x.tail is not None:
+            raise OutOfReach("len() of a dict with an abstract tail")
         return len(x.entries)
     if isinstance(x, TokenM):
         x = x.text
@@ -642,6 +649,23 @@ def m_bool(I, x=False):
 
 
 def m_max(I, *args, **kw):
+    from .absx import AbsMap, add_fact
+    if len(args) == 1 and isinstance(args[0], AbsMap):
+        # contract of max over a collection of unknown length: the result is >= every element and is
+        # either the default (empty collection) or at least the default is irrelevant; no more is assumed
+        am = args[0]
+        if set(kw) - {"default"}:
+            raise OutOfReach("max with key=")
+        r = I.ctx.fresh(S.INT, "max")
+        if "default" not in kw:
+            raise OutOfReach("max() of a possibly empty abstract collection without default")
+        I.ctx.assume(S.cmp(">=", r, kw["default"]) if S.sort_of(kw["default"]) in (S.INT,) else True)
+
+        def fact(elem, am=am, r=r):
+            cond, val = am.apply(elem)
+            return S.implies(cond, S.cmp(">=", r, val))
+        add_fact(am.source, fact)
+        return r
     if kw:
         raise OutOfReach("max with keywords")
     xs = list(py_iter(I, args[0])) if len(args) == 1 else list(args)
